@@ -424,3 +424,31 @@ func (r *Renderer) expr(e *N) {
 		panic("render: unknown expression kind " + e.K)
 	}
 }
+
+// FixDangling wraps the then-branch of an if-else in a block when that branch
+// ends in an else-less if (otherwise the else would attach to the inner if).
+// The tree is modified in place and returned.
+func FixDangling(n *N) *N {
+	if n == nil {
+		return nil
+	}
+	for _, k := range n.A {
+		FixDangling(k)
+	}
+	if n.K == "if" && n.A[2] != nil && danglingTail(n.A[1]) {
+		n.A[1] = Block(n.A[1])
+	}
+	return n
+}
+
+func danglingTail(s *N) bool {
+	switch s.K {
+	case "if":
+		return s.A[2] == nil || danglingTail(s.A[2])
+	case "while":
+		return danglingTail(s.A[1])
+	case "for":
+		return danglingTail(s.A[3])
+	}
+	return false
+}
